@@ -128,6 +128,20 @@ def run(ctx):
         casts.append(("search domain", "range %s does not cover the 256 table cells" % short_ranges))
     # the table is consulted: Iterator::position over it, or a comparison of its Option<u16> cells with the unit
     cmp16 = [c for b in scl for c in b.calls if re.search(r"cmp::PartialEq(<.*>)?>?::(eq|ne)$", c.fn or "") and "Option<u16>" in (c.full or "")]
+    # ... on every path: what string_to_bytes returns is always what the lookup produced (no second way out that hands back the
+    # text's own bytes when "it is all ASCII anyway")
+    rdefs = [d for d in s2b.defs.get(0, []) if d[2] != "proj"]
+    outs = []
+    for d in rdefs:
+        if d[2] == "call":
+            outs.append("%s(%s)" % ((d[3]["f"].get("fn") or "").rsplit("::", 1)[-1], ",".join(s2b.sname(a, 10) for a in d[3]["args"])))
+        else:
+            outs.append(s2b.rvname(d[3], 8))
+    raw_out = [t for t in outs if "encode_utf16(" not in t and "position" not in t]
+    if len(rdefs) == 1:
+        raw_out = []          # one way out: whether it goes through the table is what the rule below decides
+    ctx.ob(R, "encode-through-table-on-every-path", bool(rdefs) and not raw_out, "every value string_to_bytes returns comes from the table lookup (%d return value(s))" % len(rdefs), s2b.where(),
+           what="string_to_bytes has a way out that returns %s instead of the positions found in the table: text that is handed back as its own bytes is wrong for every encoding whose printable-ASCII range is not the identity (StandardEncoding: 27 and 60)" % [t[:60] for t in raw_out])
     ctx.ob(R, "encode-through-table", (len(pos) == 1 or bool(cmp16)) and not casts and only_pos, "string_to_bytes emits only positions found in the table (no u16 -> u8 shortcut)", s2b.where(),
            what="string_to_bytes has a path that turns a UTF-16 unit into a byte without looking it up in the table (%s): wrong for encodings whose ASCII range is not the identity (StandardEncoding 27/60)" % casts)
     # first-index re-encoding decodes to the same value (guards duplicated cells with different meaning)
@@ -204,6 +218,11 @@ def run(ctx):
     strip = [c for c in dec.calls if (c.fn or "").endswith("ops::Index::index") and from_two(c)]
     ctx.ob(R, "decoder-no-second-bom-sniff", not sniff and len(strip) == 1, "after the mark is cut off the remainder is decoded as plain UTF-16BE (no BOM sniffing)", dec.where(),
            what="decode_text_string decodes the bytes after the mark with a BOM-sniffing decoder (%s): a text whose first character is U+FEFF/U+FFFE changes" % [c.fn for c in sniff])
+    # what the decoder decoded is what it returns: nothing is cut out of the text afterwards (the mark is cut off the *bytes*)
+    surgery = [(F.canon_of(b_), c.ln, (c.fn or "").rsplit("::", 1)[-1]) for b_ in dcl for c in b_.calls
+               if re.search(r"str::<impl str>::(strip_prefix|strip_suffix|trim\w*|split\w*|rsplit\w*|replace\w*|get|get_unchecked)$|string::String::(drain|remove|truncate|pop|retain|replace_range|split_off)$", c.fn or "")]
+    ctx.ob(R, "decoder-returns-text-unchanged", not surgery, "decode_text_string applies no cutting or replacing to the decoded text", dec.where(),
+           what="decode_text_string cuts or replaces parts of the decoded text (%s): a string whose content looks like what is cut (an escape sequence, leading or trailing characters) does not come back as it was encoded" % [("%s line %d: %s" % t_) for t_ in surgery[:3]])
     e8 = F.fn("encodings::encode_utf8")
     vc = [c for c in e8.calls if (c.fn or "").endswith("box_assume_init_into_vec_unsafe")]
     lits = lib.vec_literal(e8, {"c": vc[0].dest}) if vc else None
